@@ -102,6 +102,11 @@ def flip_domain(enc, inst):
         if key[0] == "in" and at.get("exact") is None:
             for v in (at["S"], at["C"]):
                 cons.append(Constraint(3, P.sub({((v, 2),): Fraction(1)}, P.const(Fraction(1, 64))), "angle seed generic"))
+    for name, kind, node, seed in enc.t.inputs:
+        # an angle that also occurs outside trig (|a| < eps test) has its own plain variable, independent of (S,C): keep it away from 0 as well
+        if kind == "angle" and name in enc.input_var:
+            vi = enc.input_var[name]
+            cons.append(Constraint(3, P.sub({((vi, 2),): Fraction(1)}, P.const(Fraction(1, 64))), "angle value generic"))
     for g, ps in groups.items():
         n2 = {}
         for p in ps:
